@@ -36,12 +36,16 @@ pub enum Op {
     Peer { doc: usize, peer: u8 },
     Flush,
     Scan { doc: usize },
+    /// list_namespaces + list_authors (shared read snapshot: commits the open write transaction)
+    List,
+    /// content_hashes (owned snapshot)
+    Hashes,
     RemoveDoc(usize),
 }
 
 impl Op {
     fn commits(&self) -> bool {
-        matches!(self, Op::Flush | Op::Scan { .. })
+        matches!(self, Op::Flush | Op::Scan { .. } | Op::List | Op::Hashes)
     }
 }
 
@@ -62,7 +66,11 @@ pub fn gen_history(rng: &mut Rng, n: usize) -> Vec<Op> {
             14 => Op::Policy { doc, n: rng.below(3) },
             15 => Op::Peer { doc, peer: rng.below(7) as u8 },
             16 | 17 => Op::Flush,
-            18 => Op::Scan { doc },
+            18 => match rng.below(3) {
+                0 => Op::Scan { doc },
+                1 => Op::List,
+                _ => Op::Hashes,
+            },
             _ => {
                 if rng.chance(1, 3) {
                     Op::RemoveDoc(1)
@@ -129,6 +137,19 @@ pub fn apply(store: &mut Store, op: &Op, t: u64) {
         }
         Op::Scan { doc } => {
             if let Ok(it) = store.get_many(nss[*doc].id(), Query::all()) {
+                let _ = it.count();
+            }
+        }
+        Op::List => {
+            if let Ok(it) = store.list_namespaces() {
+                let _ = it.count();
+            }
+            if let Ok(it) = store.list_authors() {
+                let _ = it.count();
+            }
+        }
+        Op::Hashes => {
+            if let Ok(it) = store.content_hashes() {
                 let _ = it.count();
             }
         }
